@@ -54,8 +54,10 @@ BODY = {
 # characters that open tags
 BODY_VARIANTS = [
     BODY,
-    {'comment': '<!-- <b> --->', 'cdata': '<![CDATA[ a[b[0]]]]>', 'pi': '<??>', 'script': '', 'style': '', 'text': ' > '},
-    {'comment': '<!---->', 'cdata': '<![CDATA[]]>', 'pi': '<?php echo "?><b>in</b>" \'?>\'; ??>', 'script': '<', 'style': '</ <', 'text': 't'},
+    {'comment': '<!-- <b> --->', 'cdata': '<![CDATA[ a[b[0]]]]>', 'pi': '<??>', 'script': '', 'style': '', 'text': ' > ',
+     'script-attrs': [('type', "''")]},                     # an empty type still means script
+    {'comment': '<!---->', 'cdata': '<![CDATA[]]>', 'pi': '<?php echo "?><b>in</b>" \'?>\'; ??>', 'script': '<', 'style': '</ <', 'text': 't',
+     'script-attrs': [('type', '""'), ('defer', None)]},
 ]
 
 
@@ -173,7 +175,7 @@ def emit(forest, xml=False, body=None):
                 rec['close'] = None
         elif kind in ('script', 'style'):
             rec['name'] = kind
-            rec['open'], rec['attrs'] = open_tag(kind, attrs)
+            rec['open'], rec['attrs'] = open_tag(kind, list(BODY.get(kind + '-attrs', [])) + list(attrs))
             w(BODY[kind])
             s = pos[0]
             w('</%s>' % kind)
@@ -194,6 +196,17 @@ def emit(forest, xml=False, body=None):
     for nd in forest:
         node(nd, None)
     return ''.join(out), elements
+
+
+def attribute_variant(text, elements):
+    "the same document with other letters inside every attribute name and value: same length, same tags, same offsets"
+    tr = str.maketrans('abcdefghijklmnopqrstuvwxyz', 'qrstuvwxyzabcdefghijklmnop')
+    chars = list(text)
+    for e in elements:
+        for (_n, ns, ne, raw, vs, ve) in e['attrs']:
+            for i in list(range(ns, ne)) + (list(range(vs, ve)) if raw is not None else []):
+                chars[i] = chars[i].translate(tr)
+    return ''.join(chars)
 
 
 def enclosing(elements, p):
